@@ -89,6 +89,50 @@ def run(prog, R):
             return out
         c1, c2 = consts(pre), consts(ana)
         R.ob("C18.2-lock-step", "both sides compare the path with the same constant", "stdgates.inc" in c1 and "stdgates.inc" in c2, pre.at, f"pre-pass {sorted(c1)}; analyser {sorted(x for x in c2 if 'inc' in x)}")
+        # the skip predicate itself must be the same term on both sides: String == "stdgates.inc" applied directly
+        # to Include::file().to_string() (no normalisation of the path on one side only), and in the pre-pass the
+        # closure yields None exactly when it holds
+        def chain(t):
+            out = []
+            while isinstance(t, tuple):
+                if t[0] == "field":
+                    t = t[1]
+                elif t[0] in ("call", "pure") and t[1].endswith("Try>::branch"):
+                    t = t[2][0]
+                elif t[0] in ("call", "pure") and t[1].startswith("oq3_syntax::ast::"):
+                    out.append(t[1].split("::", 2)[2])
+                    t = t[2][0] if t[2] else None
+                else:
+                    break
+            return tuple(out)
+
+        def skip_preds(b, **kw):
+            preds, rows = set(), []
+            for p_ in SymExec(prog, b, **kw).paths():
+                if "__diverged__" in p_.env:
+                    continue
+                here = []
+                for t, c in conds_of(p_):
+                    if isinstance(t, tuple) and t[0] in ("pure", "call") and any(isinstance(a, tuple) and a[0] == "c" and a[2] == "stdgates.inc" for a in t[2]):
+                        other = [a for a in t[2] if not (isinstance(a, tuple) and a[0] == "c")]
+                        preds.add((t[1], chain(other[0]) if other else ()))
+                        here.append(truth(c))
+                rows.append((here, p_))
+            return preds, rows
+        pp, prow = skip_preds(pre)
+        ap, _ = skip_preds(ana, max_visits=1, max_paths=5000)
+        want = {("<std::string::String as std::cmp::PartialEq<&str>>::eq", ("expr_ext::FilePath::to_string", "Include::file"))}
+        R.ob("C18.2-lock-step", "skip predicate is String == \"stdgates.inc\" on Include::file().to_string(), identically on both sides", pp == want and ap == want, pre.at, f"pre-pass {sorted(pp)}; analyser {sorted(ap)}")
+        badp = []
+        for here, p_ in prow:
+            rv = show(deep_strip(p_.env.get(0)))
+            if "FromResidual" in rv.split("(")[0]:
+                rv = "Option::None(?)"
+            if here and (rv.startswith("Option::None") != bool(here[0])):
+                badp.append((here, rv[:60]))
+            if not here and not rv.startswith("Option::None"):
+                badp.append(("no-skip-test", rv[:60]))
+        R.ob("C18.2-lock-step", "pre-pass yields no entry exactly for stdgates.inc (and for non-include / unreadable path literal)", not badp and any(h for h, _ in prow), pre.at, f"{len(prow)} paths; {badp[:2]}")
         a1 = [(pre.callee_of(t) or "").split("::")[-1] for _, t in pre.calls()]
         a2 = [(ana.callee_of(t) or "").split("::")[-1] for _, t in ana.calls()]
         R.ob("C18.2-lock-step", "both sides read the path via Include::file().to_string()", all(x in a1 for x in ("file", "to_string")) and all(x in a2 for x in ("file", "to_string")), ana.at, "")
